@@ -22,7 +22,8 @@ from .registry import PROPS, UNITS
 VERIF = "/verif"
 REPO = os.environ.get("VERIF_REPO", "/repo")
 WORK_ROOT = os.environ.get("VERIF_WORK", "/var/tmp/p2verif")
-CACHE = os.path.join(VERIF, ".cache")
+CACHE = os.environ.get("VERIF_CACHE", os.path.join(VERIF, ".cache"))
+OUT = os.environ.get("VERIF_OUT", VERIF)   # evidence/ and replays/ live here (overridden for mutant trials)
 KNOWN = os.path.join(VERIF, "KNOWN_FINDINGS.txt")
 
 LABEL_RE = re.compile(r"^\"?(C\d\d\.[A-Za-z0-9_\-]+)")
@@ -171,8 +172,10 @@ def classify(unit, hspec, hres, workdir):
             else:
                 out["inconclusive"].append("check failed outside p2panda code (%s) %s at %s" % (cat, desc, locs))
             continue
-        # Undetermined etc.
-        out["inconclusive"].append("check status %s: %s at %s" % (st, desc, locs))
+        # Undetermined etc. (Kani marks everything undetermined once an unwinding assertion failed)
+        out["n_other"] = out.get("n_other", 0) + 1
+    if out.get("n_other"):
+        out["inconclusive"].append("%d checks undetermined (follows from a failed unwinding assertion or solver error)" % out["n_other"])
     for w in hspec.get("witnesses", None) or []:
         if not any(w in d for d in out["covers_sat"]):
             out["inconclusive"].append("required witness not satisfied: %s" % w)
@@ -262,7 +265,7 @@ def check(pid, tier, seed, replay_only=None):
     t_start = time.time()
     spec = PROPS[pid]
     known = [k for k in load_known() if k["prop"] == pid]
-    ev_path = os.path.join(VERIF, "evidence", pid + ".json")
+    ev_path = os.path.join(OUT, "evidence", pid + ".json")
     os.makedirs(os.path.dirname(ev_path), exist_ok=True)
     os.makedirs(WORK_ROOT, exist_ok=True)
     os.makedirs(CACHE, exist_ok=True)
@@ -415,11 +418,12 @@ def check(pid, tier, seed, replay_only=None):
 
 
 def replay_violation(unit, workdir, crate_dir, h, v, pid, tmo, mem):
-    rdir = os.path.join(VERIF, "replays", pid)
+    rdir = os.path.join(OUT, "replays", pid)
     os.makedirs(rdir, exist_ok=True)
     base = os.path.join(rdir, h["name"].replace("::", "__") + "--" + v["label"].replace("/", "_"))
     logpath = os.path.join(WORK_ROOT, "%s-playback.log" % unit["name"])
-    rc, _, _ = run_kani(unit, workdir, crate_dir, [h["name"]], tmo, 1, mem, unit.get("kani_flags", []), logpath, playback=True)
+    # the driver itself parses the (large) CBMC trace for playback: give it room
+    rc, _, _ = run_kani(unit, workdir, crate_dir, [h["name"]], max(tmo, 300), 1, max(mem, 44), unit.get("kani_flags", []), logpath, playback=True)
     txt = open(logpath, errors="replace").read()
     vals = extract_playback(txt, None if v.get("kind") == "panic" else v["label"])
     rp = dict(path=base + ".json", harness=h["name"], label=v["label"], desc=v["desc"], loc=v["loc"])
